@@ -1214,7 +1214,10 @@ class MemoryCache:
         big_mem = MemoryCache._pd_mem_usage(big)
         m = (big_mem - small_mem) / (len(big) - len(small))
         b = big_mem - m * len(big)
-        return int(m * len(obj) + b)
+        # With cells of very uneven size the smaller split can be the heavier one: the line then
+        # slopes downwards and extrapolates to a negative amount. The object is at least as
+        # large as the rows that were measured.
+        return max(int(m * len(obj) + b), small_mem + big_mem)
 
     @staticmethod
     def _estimate_object_size(obj: object) -> int:
